@@ -1745,7 +1745,7 @@ class Checker:
             "exhaustive": False,
             "grid": {"cells": self.grid_cells, "completed": self.grid_done,
                      "exhaustive": self.grid_cells > 0 and self.grid_cells == self.grid_done,
-                     "what": "a database of another extractor list / the same list permuted / the same expressions with other flags left in the directory followed by a crash before and after each of the first 10 storage operations of the next lifetime; truncation at every length class, zero-filled tails, every single byte of the 32-byte header flipped, foreign values per header field, body flips/bytes, garbage, zeros, appended bytes, lost file, removed/empty directory, a crash before and after each of the first 8 storage operations, a crash after each write-length class, ENOSPC budgets -- each against a cache freshly written by the real code",
+                     "what": "a database of another extractor list / the same list permuted / the same expressions with other flags left in the directory followed by a crash before and after each of the first 10 storage operations of the next lifetime; truncation at every length class, zero-filled tails, every single byte of the 32-byte header flipped, foreign values per header field, body flips/bytes, garbage, zeros, appended bytes, lost file, removed/empty directory, a crash before and after each of the first 8 storage operations, a crash after each write-length class, ENOSPC budgets -- each against a cache freshly written by the real code; the entry replaced by a directory / a link to nowhere / a link to itself / a link to a directory / a link to the moved database; an operating-system error (EIO, EACCES, EMFILE, EROFS, EINTR) at each of the first 8 storage operations of a first, a cached and a damaged-cache lifetime; a read-only directory (EROFS / EACCES / EPERM on every change) holding an intact, truncated, empty, foreign-version, zero-tailed or lost database; eight kinds of damage applied in the middle of a lifetime (after construction and before first use, between two instances); caller-chosen extractor lists whose cache keys collide under non-injective encodings (boundary shift, alternation vs two patterns, swapped flags, duplicate multiplicity, newline) with the foreign list using the directory first; documents of 70 kB, 140 kB, 400 kB and 1.3 MB with every second character multi-byte at byte shifts 0-2",
                      "outcomes_sample": dict(list(sorted(self.grid_outcomes.items()))[:12])},
             "pattern_feature_enumeration": {
                 "jobs": getattr(self, "feature_cells", 0), "completed": getattr(self, "features_done", 0),
@@ -1806,6 +1806,7 @@ ASSUMPTIONS = [
     "the domain excludes non-ASCII whitespace/digits, the non-ASCII case variants of ASCII letters and -- for the 34 patterns with \\w or an unescaped dot -- non-ASCII characters inside or next to their matches",
     "a full disk is not one of the directory states the statement lists: the one lifetime into which ENOSPC was injected may fail with that error",
     "likewise an operating-system error injected at one storage operation (EIO, EACCES, EMFILE, EROFS, EINTR): that lifetime may fail with the injected error object, every later lifetime is judged in full",
+    "a read-only directory, an entry that is a directory or a broken/looping link, and a directory that changes while the process lives are states of the cache directory (judged in full); a cache_dir that is itself a regular file or whose parent is missing is a configuration error and is not generated",
     "sampling outside the grid: a clean batch is evidence for the seeds explored",
 ]
 
